@@ -339,6 +339,17 @@ func c06Unions(c *Ctx, g *gen.G) {
 		holder.Dependencies = spec.Dependencies{"a": spec.SchemaOrStringArray{Schema: other}, "b": spec.SchemaOrStringArray{Property: names}}
 		cases = append(cases, uv{"Schema{unions}", holder, `{"type":"object","items":[` + string(innerJSON) + `],"additionalProperties":` + string(innerJSON) +
 			`,"additionalItems":` + string(otherJSON) + `,"dependencies":{"a":` + string(otherJSON) + `,"b":` + string(namesJSON) + `}}`})
+		// a responses object filled in by hand: every integer key is a member of its own, beside `default`
+		{
+			r0, r1, rd := spec.NewResponse().WithDescription("zero"), spec.NewResponse().WithDescription(g.Str()), spec.NewResponse().WithDescription("the default")
+			j0, _ := json.Marshal(r0)
+			j1, _ := json.Marshal(r1)
+			jd, _ := json.Marshal(rd)
+			code := []int{200, 404, 1, 999, -1}[c.Intn(5)]
+			rs := spec.Responses{ResponsesProps: spec.ResponsesProps{Default: rd, StatusCodeResponses: map[int]spec.Response{0: *r0, code: *r1}}}
+			cases = append(cases, uv{"Responses{0,code,default}", rs, fmt.Sprintf(`{"0":%s,"%d":%s,"default":%s}`, j0, code, j1, jd)})
+			cases = append(cases, uv{"Responses{0}", spec.Responses{ResponsesProps: spec.ResponsesProps{StatusCodeResponses: map[int]spec.Response{0: *r0}}}, fmt.Sprintf(`{"0":%s}`, j0)})
+		}
 		for _, u := range cases {
 			got, err := json.Marshal(u.v)
 			c.Count("union:"+u.how+u.want, true)
